@@ -373,8 +373,12 @@ class Seam:
         np.random.uniform = self._uniform
         np.random.choice = self._choice
         np.random.seed = self._seed
+        # the real global generator is always put into a state that depends on the scenario only, so that
+        # np.random functions the seam does not own (rand, normal, ...) are reproducible too
         if self.mode == "real":
             self._orig["seed"](self.spec.get("np_seed", 0))
+        else:
+            self._orig["seed"](H(self.spec.get("seed", 0), "np-global") % (2 ** 32))
         self.installed = True
 
     def uninstall(self):
@@ -589,6 +593,8 @@ def make_reward_fn(spec, domain):
             return sgn * sum(((float(x) - lo) / (hi - lo) if hi > lo else 0.0) for x, (lo, hi) in zip(p, domain)) / len(domain)
         if kind == "bernoulli":
             return 1.0 if r.random() < spec.get("p", 0.5) else 0.0
+        if kind == "score":
+            return float(r.choice([0, 1, 5, 17, 100, 122, 200, 255]) if r.random() < 0.5 else r.randint(0, 255))
         raise HarnessError("unknown reward kind " + kind)
 
     offset = spec.get("offset", 0.0)
@@ -598,6 +604,14 @@ def make_reward_fn(spec, domain):
         t = tmix[(i - 1) % len(tmix)]
         if t == "b":
             return np.bool_(v > 0.5)
+        if t == "8":
+            # narrow NumPy integer scalars (scores, counts): uint8 for 0..255, int8 for -128..127
+            iv = int(round(v))
+            if 0 <= iv <= 255:
+                return np.uint8(iv)
+            if -128 <= iv <= 127:
+                return np.int8(iv)
+            return float(v)
         if t == "i":
             return int(round(v)) if abs(v) < 1e15 else float(v)
         if t == "n":
@@ -609,6 +623,10 @@ def make_reward_fn(spec, domain):
 def tag(v):
     if isinstance(v, np.bool_):
         return ["b", bool(v)]
+    if isinstance(v, np.uint8):
+        return ["u8", int(v)]
+    if isinstance(v, np.int8):
+        return ["i8", int(v)]
     if isinstance(v, (bool,)):
         return ["f", float(v)]
     if isinstance(v, int):
@@ -624,6 +642,10 @@ def untag(tv):
     t, v = tv
     if t == "b":
         return np.bool_(v)
+    if t == "u8":
+        return np.uint8(v)
+    if t == "i8":
+        return np.int8(v)
     if t == "i":
         return int(v)
     if t == "n":
@@ -927,7 +949,11 @@ class Oracle:
 # --------------------------------------------------------------------------- building an algorithm
 
 def build_domain(sc):
-    return [[float(lo), float(hi)] for lo, hi in sc["domain"]]
+    dom = [[float(lo), float(hi)] for lo, hi in sc["domain"]]
+    if sc.get("aliased_rows") and all(r == dom[0] for r in dom):
+        # the way a user writes a hypercube: [[lo, hi]] * d  (every row is the same list object)
+        return [dom[0]] * len(dom)
+    return dom
 
 
 def build_algo(sc, ctx, domain, partition):
